@@ -160,3 +160,4 @@ MANIFEST = {
     'note': 'Trusted: transcription of the documented criteria in refmodel.Oracle.key; '
             'enumerating back end (cross-checked against CBC in the thorough tier).',
 }
+MANIFEST['text'] += (' ' + 'Minimising criteria are mostly run on instances where lower quotas or -stab force students in (otherwise the empty matching is trivially optimal); cases may carry decoy objects or earlier solves.')
